@@ -553,3 +553,94 @@ def _demod(pm, v):
     r.debug = False
     out = r._process_buffer()
     return {"t": "frames", "v": [enc.text(m[0]) for m in out]}
+
+
+# ---- C20: observations of pyModeS.aero projected to integers ----
+def _um(x):
+    return int(round(float(x) * 1e6))
+
+
+@reg("aero.isa")
+def _a_isa(pm, v):
+    import numpy as np
+    a = pm.aero
+    h = -500.0 + 500.0 * (v["k"] - 1)
+    if v.get("arr"):
+        p, rho, T = a.atmos(np.array([h, h]))
+        p, rho, T = p[0], rho[0], T[0]
+        p2, r2, T2 = a.pressure(np.array([h]))[0], a.density(np.array([h]))[0], a.temperature(np.array([h]))[0]
+    else:
+        p, rho, T = a.atmos(h)
+        p2, r2, T2 = a.pressure(h), a.density(h), a.temperature(h)
+    same = 1 if (float(p) == float(p2) and float(rho) == float(r2) and float(T) == float(T2)) else 0
+    return {"t": "obs", "p": int(round(float(p) * 100)), "rho": int(round(float(rho) * 1e7)), "T": int(round(float(T) * 1000)),
+            "same": same}
+
+
+@reg("aero.tropopause")
+def _a_tropo(pm, v):
+    a = pm.aero
+    out = {}
+    for key, h in (("lo", 11000.0 - 1e-3), ("hi", 11000.0 + 1e-3)):
+        p, rho, T = a.atmos(h)
+        out[key] = [int(round(float(p) * 1e4)), int(round(float(rho) * 1e9)), int(round(float(T) * 1e6))]
+    out["t"] = "obs"
+    return out
+
+
+_PAIRS = {"tas2cas": ("tas2cas", "cas2tas"), "cas2tas": ("cas2tas", "tas2cas"), "tas2eas": ("tas2eas", "eas2tas"),
+          "eas2tas": ("eas2tas", "tas2eas"), "tas2mach": ("tas2mach", "mach2tas"), "mach2tas": ("mach2tas", "tas2mach"),
+          "mach2cas": ("mach2cas", "cas2mach"), "cas2mach": ("cas2mach", "mach2cas")}
+
+
+@reg("aero.inverse")
+def _a_inv(pm, v):
+    import numpy as np
+    f, g = (getattr(pm.aero, n) for n in _PAIRS[v["name"]])
+    x = v["x"] / 1e6
+    h = float(v["h"])
+    if v.get("arr"):
+        y = f(np.array([x, x]), h)[0]
+        back = g(np.array([y]), np.array([h]))[0]
+    else:
+        y = f(x, h)
+        back = g(y, h)
+    return {"t": "obs", "v": v["x"], "back": _um(back)}
+
+
+@reg("aero.monotone")
+def _a_mono(pm, v):
+    f = getattr(pm.aero, v["name"])
+    h = float(v["h"])
+    return {"t": "obs", "rows": [[x, _um(f(x / 1e6, h))] for x in v["xs"]]}
+
+
+@reg("aero.order")
+def _a_order(pm, v):
+    a = pm.aero
+    tas = v["x"] / 1e6
+    h = float(v["h"])
+    return {"t": "obs", "tas": v["x"], "eas": _um(a.tas2eas(tas, h)), "cas": _um(a.tas2cas(tas, h))}
+
+
+@reg("aero.distance")
+def _a_dist(pm, v):
+    import math
+    a = pm.aero
+    d12 = float(a.distance(v["la1"], v["lo1"], v["la2"], v["lo2"]))
+    d21 = float(a.distance(v["la2"], v["lo2"], v["la1"], v["lo1"]))
+    hav = (1 - math.cos(d12 / 6371000.0)) / 2
+    brg = float(a.bearing(v["la1"], v["lo1"], v["la2"], v["lo2"]))
+    return {"t": "obs", "d12": int(round(d12 * 10)), "d21": int(round(d21 * 10)), "hav": int(round(hav * 1e4)),
+            "brg": int(math.floor(brg * 1000))}
+
+
+@reg("aero.same")
+def _a_same(pm, v):
+    import numpy as np
+    f = getattr(pm.aero, v["name"])
+    x = v["x"] / 1e6
+    h = float(v["h"])
+    s = float(f(x, h))
+    arr = f(np.array([x, x * 0.5, x]), np.array([h, h, h]))
+    return {"t": "obs", "a": _um(s), "b": _um(arr[2])}
